@@ -5,6 +5,7 @@
   `clientTids` grows only in `mSpawn`, signal 0 dies only in `dFin`.
 -/
 import Nstd.Future.SimRing1
+set_option linter.unusedSimpArgs false
 namespace Nstd.Future
 
 /-- frames of the main thread's own code (always the bottom frame of its stack) -/
@@ -75,7 +76,8 @@ theorem okNew_cons {rest l : List Frame} {a : Frame} :
   simp [OkNew]
 
 structure Shape4 (s s' : State) (t : Tid) (fr : Frame) (rest : List Frame) : Prop where
-  ct : s'.clientTids = s.clientTids ∨ (∃ i, fr = .mSpawn i) ∧ s'.clientTids = s.clientTids ++ [s.nthreads]
+  ct : s'.clientTids = s.clientTids ∨ (∃ i, fr = .mSpawn i) ∧ s'.clientTids = s.clientTids ++ [s.nthreads] ∧
+      (s'.threads s.nthreads).isSome = true
   others : ∀ u, u ≠ t → s'.threads u = s.threads u ∨
       (u = s.nthreads ∧ ∃ thw, s'.threads u = some thw ∧ thw.finished = false ∧
         (thw.stack = [.tStart, .wPop1] ∨
@@ -94,7 +96,8 @@ theorem shape4 (s : State) (t : Tid) (th : Thread) (fr : Frame) (rest : List Fra
   cases fr <;> simp only [stepFrame] <;> repeat' split
   all_goals
     constructor
-    · simp [setThread, setSig, setPool, setFut, withFault, destroySig]
+    · simp [setThread, setSig, setPool, setFut, withFault, destroySig, upd]
+      try (split <;> rfl)
     · intro u hu
       simp [setThread, setSig, setPool, setFut, withFault, destroySig, upd_ne _ _ hu]
       try (by_cases hw : u = s.nthreads
